@@ -158,6 +158,9 @@ def temperatures(lib, pairs, est_range, rng, nmax):
     return cands
 
 
+_PREV = {}
+
+
 def check_case(ctx, case):
     install_contract()
     lib = get_lib(case['lib'], case.get('fresh', False))
@@ -234,6 +237,23 @@ def check_case(ctx, case):
         return
     est = o['ok']
 
+    # ---- an older estimate of the same library is still what it was -------
+    lk = case['lib'] if isinstance(case['lib'], str) else repr(case['lib'])
+    prev = _PREV.get(lk)
+    if prev is not None:
+        pest, pT, pname, pval, pcase = prev
+        po = observe(getattr(pest, pname), pT)
+        ctx.evals()
+        if 'exc' in po or repr(po['ok']) != pval:
+            ctx.violation('an estimate made earlier changed its value after '
+                          'another estimate was made from the same library',
+                          dict(case, earlier=pcase),
+                          {'method': pname, 'T': pT, 'before': pval,
+                           'after': repr(po.get('ok', po.get('exc')))})
+        else:
+            ctx.count('earlier_estimates_re_evaluated')
+        _PREV.pop(lk, None)
+
     # ---- the sum ---------------------------------------------------------
     rng = ctx.sub_rng('T', *[k for k, _ in pairs][:4])
     er = observe(est.get_range)
@@ -294,6 +314,10 @@ def check_case(ctx, case):
                 continue
             vals[name] = float(v)
             compared += 1
+            if not case.get('fresh'):
+                _PREV[case['lib'] if isinstance(case['lib'], str)
+                      else repr(case['lib'])] = (
+                    est, T, name, repr(v), {'mapping': case['mapping']})
         if all(n in vals for n in ('get_HoRT', 'get_SoR', 'get_GoRT')):
             if not close(vals['get_GoRT'],
                          vals['get_HoRT'] - vals['get_SoR'], rel=1e-12,
